@@ -7,7 +7,8 @@
    the CURRENT VALUES of the objects, the observed output must pass the verified
    post-condition checker [stog_post_ok] (so the choice among several valid trunks stays
    free, as in the single-call correspondence), the list must have been permuted only
-   (not at all on a negative answer), no geometry may have changed and no object outside
+   (the property allows any reordering, also on a negative answer, where the code as it is
+   keeps the order: Stog/StogHist.v call_spec), no geometry may have changed and no object outside
    the list may have been touched. *)
 From FrameModel Require Import Num.QcTac Geometry.Rect Cases.Cmp Stog.CreateStog Stog.StogFacts
   Stog.StogPost Stog.StogHist.
@@ -38,7 +39,7 @@ Definition call_check (eps aeps : Qc) (pre : list Rect) (idxs : list nat) (b : b
   | Some rs, Some out =>
       opt_eqb Bool.eqb (stog_decision eps aeps rs) (Some b) &&
       stog_post_ok eps aeps rs out b &&
-      perm_nat idxs idxs' && (b || list_eqb Nat.eqb idxs idxs') &&
+      perm_nat idxs idxs' &&
       list_eqb geom_eqb pre post && untouched idxs pre post 0
   | _, _ => false
   end.
